@@ -3,7 +3,7 @@
 // MemfsFile: the in-memory handle returned by Memfs::read / write / append.
 // Contracts are std::io::Cursor's documented behaviour (property C07), byte-exact data flow (C06),
 // sync's frame on the shared state (C03) and panic freedom for every position / offset / buffer (C12).
-//@ prelude base errors io path_abs memfs_state
+//@ prelude base errors io iter path_abs memfs_state
 
 //@ struct file=src/sys/fs/memfs/file.rs name=MemfsFile
 //@ endstruct
